@@ -2,7 +2,8 @@
 import vlib, proglib
 from proglib import DT, DT_BITS
 
-PROP_FILES = ["Properties_C09.v"]
+import glob, os as _os
+PROP_FILES = sorted(_os.path.basename(f) for f in glob.glob(_os.path.join(vlib.COQ, "Properties_C09*.v"))) + ["Properties_C01_bits.v"]
 
 
 def gen_case(rng, tier):
